@@ -46,6 +46,26 @@ SUPPRESSIBLE = ["myst", "myst.html", "myst.topmatter", "myst.directive_option", 
                 "myst.attribute", "myst.duplicate_def", "myst.directive_comments", "docutils"]
 
 
+# warning type -> (a construct that raises it, extensions it needs)
+SUPPRESS_CONSTRUCTS = {
+    "myst.html": ("<div>\n<![x] foo>\n</div>", ["html_admonition", "html_image"]),
+    "myst.topmatter": ("---\nmyst:\n  heading_anchors: 99\n  unknown_field: 1\n---\n", []),
+    "myst.directive_option": ("```{note}\n:class: [unclosed\n:unknownopt: 1\n\nbody\n```", []),
+    "myst.directive_parse": ("```{image}\n```", []),
+    "myst.directive_unknown": ("```{no-such-directive} arg\nbody\n```", []),
+    "myst.role_unknown": ("{nosuchrole}`x`", []),
+    "myst.substitution": ("{{ undefined_key }} {{ 1 + }}", ["substitution"]),
+    "myst.xref_missing": ("[x](#no-such-anchor) [](missing-target)", []),
+    "myst.header": ("# Top\n\n#### Jumped level", []),
+    "myst.not_supported": ("> ---\n> quote", []),
+    "myst.strikethrough": ("~~struck~~", ["strikethrough"]),
+    "myst.iref_missing": ("<inv:key#no-such-object>", []),
+    "myst.attribute": ("[span]{bad=} ![a](img.png){width=wide}", ["attrs_inline"]),
+    "myst.duplicate_def": ("[dupref]: https://a.example\n\n[dupref]: https://b.example\n\n[^dupfn]: one\n\n[^dupfn]: two", []),
+    "myst.directive_comments": ("```{note}\n---\nclass: x  # a comment\n---\nbody\n```", []),
+}
+
+
 def kinds_for(op: str, extended: bool = False) -> list[dict]:
     """Every applicable single fault for one seam call (the sweep's fault alphabet; ``extended`` adds the rarer
     errnos that only sampled plans draw)."""
@@ -145,6 +165,22 @@ class Engine:
         cfg.pop("inventories", None)
         if g.random() < 0.3:  # swarm: every recovery mechanism also has a "warning suppressed" branch
             cfg["suppress_warnings"] = sorted(g.sample(SUPPRESSIBLE, k=g.choice([1, 1, 2, 4])))
+            # ... which only runs if the construct that raises that warning is in a document
+            types = [t for t in cfg["suppress_warnings"] if t in SUPPRESS_CONSTRUCTS]
+            if "myst" in cfg["suppress_warnings"]:
+                types += g.sample(sorted(SUPPRESS_CONSTRUCTS), k=3)
+            for t in types:
+                if g.random() < 0.85:
+                    snippet, need_ext = SUPPRESS_CONSTRUCTS[t]
+                    d = g.choice(proj["docs"]) + ".md"
+                    if snippet.startswith("---\n"):
+                        if not files[d].startswith("---"):
+                            files[d] = snippet + "\n" + files[d]
+                    else:
+                        files[d] = files[d].rstrip("\n") + "\n\n" + snippet + "\n"
+                    for e in need_ext:
+                        if e not in cfg["enable_extensions"]:
+                            cfg["enable_extensions"] = sorted(cfg["enable_extensions"] + [e])
         hazards = gh.apply(g, proj, front_end, g.choice([0, 1, 1, 2, 3]))
         if front_end == "sphinx" and len(proj["docs"]) >= 2 and g.random() < 0.35:
             # an orphan: a document outside every toctree (and so outside the latex/texinfo document tree)
@@ -434,6 +470,11 @@ class Engine:
                 step //= 2
         for key in sorted(plan["cfg"]):
             yield {**plan, "cfg": {k: v for k, v in plan["cfg"].items() if k != key}}
+        for key in sorted(plan["cfg"]):  # single elements of list-valued settings
+            val = plan["cfg"][key]
+            if isinstance(val, list) and len(val) > 1:
+                for j in range(len(val)):
+                    yield {**plan, "cfg": {**plan["cfg"], key: val[:j] + val[j + 1:]}}
         if plan.get("hazards"):
             yield {**plan, "hazards": []}
 
